@@ -29,7 +29,7 @@ RULE = ("scenario = one conversation (initialize + 1..5 list/call/read/get/ping/
         "several classes, 0..3 notifications before each response, string and integer ids) run over every carrier able to express it, with "
         "per-carrier nuisance (latency, chunking); non-trivial = at least two carriers ran and the conversation has a notification, an error "
         "reply, an integer id or non-ASCII payload")
-PROBES = ["sse_event_before_202", "notifications_before_response", "error_reply", "int_id", "non_ascii_payload", "four_carriers", "nested_nulls"]
+PROBES = ["slow_notification_transit_on_http", "over_100_notifications_in_session", "sse_event_before_202", "notifications_before_response", "error_reply", "int_id", "non_ascii_payload", "four_carriers", "nested_nulls"]
 TIERS = {"quick": {"runs": 3000, "wall": 45.0}, "thorough": {"runs": 80000, "wall": 560.0}}
 ASSUMPTIONS = ["fault-free by construction: only latency and chunking vary between carriers",
                "JSON-body HTTP runs only conversations without interleaved notifications (a single JSON object cannot express them)",
@@ -45,7 +45,7 @@ def generate(rng: random.Random, tier: str) -> dict:
     ex = []
     for k in range(rng.choice([1, 2, 3, 5])):
         h = rng.choice(HELPERS)
-        e = {"helper": h, "notifs": rng.choice([0, 0, 1, 2, 3]), "reply": rng.choice(["result", "result", "result", "error"]),
+        e = {"helper": h, "notifs": rng.choice([0, 0, 1, 2, 3, 3, 45, 70] if rng.random() < 0.25 else [0, 0, 1, 2, 3]), "reply": rng.choice(["result", "result", "result", "error"]),
              "code": rng.choice([-32601, -32602, -32603, -32000, -32001, 42, 401]), "text": rng.choice(TEXTS), "nulls": rng.random() < 0.4,
              "data": rng.choice([None, {"d": 1}, "str", [1, None]])}
         if h == "raw":
@@ -53,15 +53,16 @@ def generate(rng: random.Random, tier: str) -> dict:
         ex.append(e)
     return {"v": 1, "uuid_seed": rng.getrandbits(40), "exchanges": ex, "init": rng.random() < 0.8,
             "nuisance": {"lat": rng.choice([0, 1, 20]), "chunk": rng.choice([None, 1, 5, 64]), "sse_chunk": rng.choice([None, 3, 16]),
-                         "sse_post_lat": rng.choice([1, 1, 30, 200]), "sse_event_first": rng.random() < 0.4}}
+                         "sse_post_lat": rng.choice([1, 1, 30, 200]), "sse_event_first": rng.random() < 0.4,
+                         "notif_transit": rng.choice([0, 0, 40, 300])}}
 
 
 def simplify(scn):
     if scn["init"]:
         c = copy.deepcopy(scn); c["init"] = False; yield c
     n = scn["nuisance"]
-    if n["lat"] or n["chunk"] or n["sse_chunk"] or n.get("sse_event_first"):
-        c = copy.deepcopy(scn); c["nuisance"] = {"lat": 0, "chunk": None, "sse_chunk": None, "sse_post_lat": 1, "sse_event_first": False}; yield c
+    if n["lat"] or n["chunk"] or n["sse_chunk"] or n.get("sse_event_first") or n.get("notif_transit"):
+        c = copy.deepcopy(scn); c["nuisance"] = {"lat": 0, "chunk": None, "sse_chunk": None, "sse_post_lat": 1, "sse_event_first": False, "notif_transit": 0}; yield c
     for i, e in enumerate(scn["exchanges"]):
         for key, val in (("notifs", 0), ("nulls", False), ("text", "plain"), ("data", None)):
             if e.get(key) != val:
@@ -108,8 +109,14 @@ INIT_RESULT = {"protocolVersion": "2025-06-18", "capabilities": {"tools": {"list
 
 def _server_messages(scn, posted):
     """what the conversation's server sends for this incoming request (same for every carrier)"""
+    if isinstance(posted, dict) and "id" not in posted and posted.get("method") == "notifications/initialized":
+        scn["_initialized_seen"] = True
     if not isinstance(posted, dict) or "id" not in posted:
         return []
+    if scn["init"] and posted.get("method") != "initialize" and not scn.get("_initialized_seen"):
+        # a lifecycle-enforcing server: requests that reach it before notifications/initialized are refused
+        scn["_counter"][0] += 1
+        return [{"jsonrpc": "2.0", "id": posted["id"], "error": {"code": -32002, "message": "request received before notifications/initialized"}}]
     if posted.get("method") == "initialize":
         return [{"jsonrpc": "2.0", "id": posted["id"], "result": INIT_RESULT}]
     k = (posted.get("params") or {}).get("_k")
@@ -242,6 +249,14 @@ def _run_http(scn, sse_bodies: bool):
             return {"latency": ticks(n["lat"]), "status": 200, "headers": {"content-type": ct}, "chunks": chunks}
 
         transport = SimHTTPTransport(sim, server)
+        if n.get("notif_transit"):
+            def pre_delay(rec):
+                try:
+                    posted = json.loads(rec["body"]) if rec["body"] else {}
+                except Exception:
+                    posted = {}
+                return ticks(n["notif_transit"]) if isinstance(posted, dict) and "id" not in posted else ticks(1)
+            transport.pre_delay = pre_delay
         Client = make_client_class(lambda: transport)
         with patched((httpx, "AsyncClient", Client)):
             async with httpmod.http_client(StreamableHTTPParameters(url="http://sim.test/mcp", timeout=10.0)) as (r, w):
@@ -392,6 +407,10 @@ def execute(scn: dict) -> dict:
         probe("non_ascii_payload")
     if any(e["nulls"] for e in scn["exchanges"]):
         probe("nested_nulls")
+    if scn["nuisance"].get("notif_transit") and scn["init"]:
+        probe("slow_notification_transit_on_http")
+    if sum(e["notifs"] for e in scn["exchanges"]) > 100:
+        probe("over_100_notifications_in_session")
     if len(results) == 4:
         probe("four_carriers")
     if scn["nuisance"].get("sse_event_first") and scn["nuisance"].get("sse_post_lat", 1) > 1:
